@@ -1,4 +1,5 @@
 // Unit `server_service`: actix-server/src/service.rs — the adapter between a worker's service table and the user's
+//@assumes unit=server_misc fns=builder::new,builder::bind,builder::listen,builder::listen_uds,builder::bind_uds,builder::next_token,builder::default
 // service (C01: token pairing; C02: the connection's guard lives as long as its service future; C08: a cloned factory
 // keeps its token), and worker.rs wrap_worker_services (C01: `service k serves token k`).
 use vstd::prelude::*;
